@@ -23,9 +23,14 @@ def fresh_framer(fe):
     def lemma(E):
         dec = E.opaque('decoder')
         fcls = E.cls(S.SOCKET)
+        timeouts = []
         if fe.startswith('sync'):
             server = E.obj(S.SY + 'ModbusTcpServer', framer=fcls, decoder=dec, threads=[])
-            hs = [E.obj(cls, server=server, client_address=('peer', 500 + k), running=False, framer=None) for k in (0, 1)]
+
+            def sock():
+                return E.stub('socket', {'settimeout': lambda t: timeouts.append(t), 'setblocking': lambda b: timeouts.append(None if b else 0),
+                                         'setsockopt': lambda *a: None, 'getpeername': lambda: ('peer', 500)})
+            hs = [E.obj(cls, server=server, client_address=('peer', 500 + k), running=False, framer=None, request=sock()) for k in (0, 1)]
             for h in hs:
                 E.method(h, 'setup')
         elif fe == 'asyncio.tcp':
@@ -41,6 +46,9 @@ def fresh_framer(fe):
             for h in hs:
                 E.method(h, 'connectionMade')
         f0, f1 = E.get(hs[0], 'framer'), E.get(hs[1], 'framer')
+        # the threaded handlers reset the framer when a read times out; the event-loop front-ends have no such notion: only with a blocking
+        # connection does a frame that arrives in pieces, with any pause between them, fare the same on all of them
+        E.prove('connection:reads-block-without-a-timeout(a-pause-within-a-frame-is-not-an-event)', all(t is None for t in timeouts))
         E.prove('framer:one-per-connection', f0 is not f1)
         E.prove('framer:starts-empty', L.And(L.length(E.get(f0, '_buffer')) == 0, L.length(E.get(f1, '_buffer')) == 0))
     return lemma
